@@ -12,14 +12,17 @@ DRV = 'drv_c19'
 REGISTRY = {
     'id': 'C19',
     'text': 'Lean theorems about the model of permutations/product/combinations/combinations_with_replacement: the four counting '
-            'formulas (descFactorial, choose, multichoose, power), empty result for size > n in the non-repeating forms, equality of '
-            'the four enumerations with the itertools-documentation definitions (filtered lexicographic index tuples: content and '
-            'order, any pool, any size), and the elementwise specification (each result is the selected residues with their own mods in itertools order, wrapped in the '
-            'unchanged labile/global/terminal/charge annotations); the model (own itertools enumerations, split, one-residue slice) is '
-            'tied to /repo by list-exact correspondence on generated annotations of length 1..6 x every size; the oracle evaluates the '
-            'property on the implementation against Python\'s own itertools over split() pieces, the counts and re-parsing of every result',
-    'note': 'trusted: Lean kernel, axioms propext/Classical.choice/Quot.sound, the correspondence harness; the parser is not modelled '
-            'here (results are compared as field dumps; "every result parses" is checked on the implementation)',
+            'formulas, empty result for size > n in the non-repeating forms, equality of the four enumerations with the '
+            'itertools-documentation definitions (filtered lexicographic index tuples: content and order), the elementwise '
+            'specification (selected residues with their own mods, wrapped in the unchanged globals), and - on top of the C01 '
+            'parser/serializer models and round-trip theorem - that for canonical inputs every result is canonical and parses back '
+            'to itself, that the string the Python builds (serialize_start + piece texts + serialize_end) is the serialization of '
+            'the assembled result and re-parses to it, and that the literal text-level model of the annotation methods and of the '
+            'string functions of sequence/combinatoric.py returns exactly these results; the models are tied to /repo by list-exact '
+            'correspondence on generated annotations (dict order shuffled, API histories) x every size and by text-exact '
+            'correspondence of the string functions; the oracle evaluates the property on the implementation',
+    'note': 'trusted: Lean kernel, axioms propext/Classical.choice/Quot.sound, the correspondence harness; the parser/serializer '
+            'models and canon are those of C01 (imported); sizes >= 1 in the parse theorems (size 0 gives an empty sequence)',
     'technique': 'Lean 4 proof about executable model + differential correspondence',
 }
 
@@ -142,8 +145,8 @@ def run(chk):
     chk.lean_build(['PeptVerif.Props.C19'], DRV)
     chk.trusted += [
         'modelled: ProFormaAnnotation.permutations/product/combinations/combinations_with_replacement, split, slice(i,i+1), '
-        'pop_mods + internal restore, own itertools enumerations; the effect of parse(start + components + end) is modelled on '
-        'annotations (assemble) - the ProForma parser/serializer themselves are outside this model (C01)',
+        'pop_mods + internal restore, own itertools enumerations; the literal text pipeline (serialize start/pieces/end, '
+        'concatenate, parse) on the C01 parser/serializer models, proved equal to the annotation-level assemble for canonical inputs',
         'correspondence domain (expandDomain): present mod lists non-empty, multipliers >= 1, adducts only with a charge',
     ]
     chk.rule = ('generated annotations of length 1..6 (all modification kinds except intervals) x size in None,1..n,n+1,n+3 x '
